@@ -190,6 +190,13 @@ impl<R> Archive<R> {
         if archive_chunks.iter().any(|cd| cd.archive_size == 0) {
             return Err(ArchiveError::invalid_archive("invalid chunk size"));
         }
+        // The chunks, in rebuild order, must add up to the source size the header declares.
+        let rebuilt_size = source_order.iter().try_fold(0u64, |sum, &index| {
+            sum.checked_add(u64::from(archive_chunks[index].source_size))
+        });
+        if rebuilt_size != Some(dictionary.source_total_size) {
+            return Err(ArchiveError::invalid_archive("invalid source size"));
+        }
         Ok(Self {
             reader,
             archive_chunks,
